@@ -79,7 +79,14 @@ TSubst(p, L, N) == TSubstSet(p, L, DOMAIN p, N)
 \* composition of polynomial maps, truncated
 Compose(P, Qm, N) == [i \in Vars |-> TSubst(P[i], Qm, N)]
 
+\* the Hamiltonian pushed through all generators in turn (the loop of _lie_transform)
+RECURSIVE ApplyFrom(_, _, _, _)
+ApplyFrom(F, Gs, N, n) == IF n > N THEN F ELSE ApplyFrom(ExpL(F, Gs[n], N), Gs, N, n + 1)
+ApplyAll(F, Gs, N) == ApplyFrom(F, Gs, N, 3)
+
 (* ---------------------------------- laws -------------------------------- *)
+\* "the transformed Hamiltonian equals the original one composed with the library's own coordinate change"
+MultiCompositionLaw(F, Gs, N) == TSubst(F, Forward(Gs, N), N) = ApplyAll(F, Gs, N)
 InverseLaw(F, G, N) == ExpL(ExpL(F, G, N), Neg(G), N) = Trunc(F, N)
 AutomorphismLaw(A, Bp, G, N) == Trunc(Mul(ExpL(A, G, N), ExpL(Bp, G, N)), N) = ExpL(Trunc(Mul(A, Bp), N), G, N)
 \* H composed with the coordinate change equals exp(L_G) H   (single generator)
